@@ -9,7 +9,8 @@ from ckl.values import (
 )
 from ckl.errors import (
     CklSyntaxError,
-    CklRuntimeError
+    CklRuntimeError,
+    error_value_text
 )
 from ckl.interpreter import Interpreter
 
@@ -49,7 +50,7 @@ def main():
         if result != NULL:
             print(str(result))
     except CklRuntimeError as e:
-        print(str(e.value.asString().value)
+        print(error_value_text(e.value)
               + ": " + str(e.msg)
               + " (Line " + str(e.pos) + ")")
         if e.stacktrace:
